@@ -257,6 +257,26 @@ pub fn op_ofkmer<A: HC, const K: usize>(x: &SeqSlice<A>) -> R<Seq<A>> {
     Ok(Seq::<A>::from(km))
 }
 
+/// std adaptors over `KmerIter`
+pub fn op_kmers_adapt<A: HC, const K: usize>(ad: &str, arg: usize, x: &SeqSlice<A>) -> R<String> {
+    if K * A::BITS as usize > 64 {
+        return Err(Fail::Unsup);
+    }
+    let it = x.kmers::<K>();
+    let v: Vec<Kmer<A, K>> = match ad {
+        "nth" => { let mut it = it; it.nth(arg).into_iter().collect() }
+        "skip" => it.skip(arg).collect(),
+        "stepby" => it.step_by(arg.max(1)).collect(),
+        "last" => it.last().into_iter().collect(),
+        "take" => it.take(arg).collect(),
+        "nthnext" => { let mut it = it; let _ = it.nth(arg); it.collect() }
+        "count" => return Ok(it.count().to_string()),
+        _ => vec![],
+    };
+    let out: Vec<String> = v.iter().map(|k| k.bs.to_string()).collect();
+    Ok(if out.is_empty() { "-".to_string() } else { out.join(",") })
+}
+
 pub const USIZE_OPS: &[&str] = &["tryseq", "deref", "toseq", "int", "fromint", "fromint64", "rev", "revmut", "eqstr", "eqseq", "iterhash", "kmers"];
 pub const DNA_OPS: &[&str] = &["comp", "revcomp", "compmut", "revcompmut", "canon"];
 pub const ORD_OPS: &[&str] = &["cmp", "minmax"];
@@ -267,6 +287,9 @@ macro_rules! kdispatch_impl {
     ([$($k64:literal)*], [$($k128:literal)*], $ord:tt, $dna:tt) => {
         fn kd_dispatch<T>(k: usize, x: &bio_seq::prelude::SeqSlice<Self>, cont: &mut dyn FnMut(&bio_seq::prelude::SeqSlice<Self>) -> $crate::eval::R<T>) -> $crate::eval::R<T> {
             match k { $($k64 => $crate::kmer::op_kd::<Self, $k64, T>(x, cont),)* _ => Err($crate::eval::Fail::Unsup) }
+        }
+        fn kmers_adapt(k: usize, ad: &str, arg: usize, x: &bio_seq::prelude::SeqSlice<Self>) -> $crate::eval::R<String> {
+            match k { $($k64 => $crate::kmer::op_kmers_adapt::<Self, $k64>(ad, arg, x),)* _ => Err($crate::eval::Fail::Unsup) }
         }
         fn ofkmer_dispatch(k: usize, x: &bio_seq::prelude::SeqSlice<Self>) -> $crate::eval::R<bio_seq::prelude::Seq<Self>> {
             match k { $($k64 => $crate::kmer::op_ofkmer::<Self, $k64>(x),)* _ => Err($crate::eval::Fail::Unsup) }
